@@ -99,10 +99,11 @@ func genACSList(t *rapid.T, sp int, minLen, maxLen int, bindings []string) []wor
 	for i := 0; i < n; i++ {
 		loc := fmt.Sprintf(rapid.SampledFrom(acsLocations).Draw(t, "acsloc"), sp, i)
 		out = append(out, world.ACSSpec{
-			Binding:   pick(t, "acsbinding", bindings),
-			Location:  loc,
-			Index:     rapid.SampledFrom([]string{"0", "1", "2", "7", "65535", "10", "12", "100", "02"}).Draw(t, "acsindex"),
-			IsDefault: rapid.SampledFrom([]string{A, A, "true", "false", "1", "0"}).Draw(t, "acsdefault"),
+			Binding:          pick(t, "acsbinding", bindings),
+			Location:         loc,
+			Index:            rapid.SampledFrom([]string{"0", "1", "2", "7", "65535", "10", "12", "100", "02"}).Draw(t, "acsindex"),
+			IsDefault:        rapid.SampledFrom([]string{A, A, "true", "false", "1", "0"}).Draw(t, "acsdefault"),
+			ResponseLocation: rapid.SampledFrom([]string{"", "", "", loc + "/response"}).Draw(t, "acsresponselocation"),
 		})
 	}
 	return out
